@@ -177,8 +177,19 @@ func cmdCheck(args []string) {
 	bySolver := map[string]int{}
 	engineErrors := 0
 	knownHit := map[string]bool{}
+	if len(pc.Lemmas) > 0 {
+		keys = append(keys, "LEMMAS:"+repoModule+"/"+strings.TrimPrefix(pc.Packages[0], "./"))
+	}
 	for _, k := range keys {
-		res := eng.verifyFunction(k)
+		var res *FuncResult
+		if strings.HasPrefix(k, "LEMMAS:") {
+			res = eng.verifyLemmas(strings.TrimPrefix(k, "LEMMAS:"), pc.Lemmas)
+			if res.Err == nil {
+				eng.contracts[k] = &Contract{} // lemmas need no function contract
+			}
+		} else {
+			res = eng.verifyFunction(k)
+		}
 		if res.Err != nil {
 			fmt.Printf("ERROR property=%s function %s cannot be decided: %v\n", id, k, res.Err)
 			engineErrors++
